@@ -15,7 +15,7 @@ Definition protos_cover (l l' : list config) : bool :=
 Lemma snapshot_equiv_cover : forall l l', snapshot_equiv l l' -> protos_cover l l' = true.
 Proof.
   intros l l' [H _]. unfold protos_cover. apply forallb_forall. intros c I.
-  destruct (H c I) as (c' & I' & (A & _ & _ & [S _])). apply existsb_exists. exists c'. split; [assumption|].
+  destruct (H c I) as (c' & I' & (A & _ & _ & [S _] & _)). apply existsb_exists. exists c'. split; [assumption|].
   rewrite A, N.eqb_refl. simpl. apply forallb_forall. intros b Ib. destruct (S b Ib) as (b' & Ib' & (_ & P & _)).
   apply existsb_exists. exists b'. split; [assumption|]. now apply proto_eqb_eq.
 Qed.
